@@ -67,6 +67,8 @@ def render_json(item, rng=None, indent=None, depth=0):
         return str(item[1])
     if t == 'f':
         return fmt_float(item[1], rng)
+    if t == 'f32':
+        return repr(struct.unpack('>f', bytes.fromhex(item[1]))[0])
     if t == 's':
         return json_str(item[1], rng)
     if t == 'a':
@@ -104,6 +106,8 @@ def _xml_scalar(item, rng):
         return str(item[1])
     if t == 'f':
         return fmt_float(item[1], None)
+    if t == 'f32':
+        return repr(struct.unpack('>f', bytes.fromhex(item[1]))[0])
     if t == 's':
         s = item[1]
         if rng is not None and rng.random() < 0.15 and ']]>' not in s and s and all(c not in s for c in '\r'):
@@ -117,7 +121,7 @@ def render_xml_node(name, item, rng=None):
     sp = (lambda: rng.choice(['', '', '\n', ' ', '\n\t'])) if rng is not None else (lambda: '')
     if t == 'n':
         return '<%s/>' % name if (rng is None or rng.random() < 0.5) else '<%s></%s>' % (name, name)
-    if t in ('b', 'i', 'f', 's'):
+    if t in ('b', 'i', 'f', 'f32', 's'):
         body = _xml_scalar(item, rng)
         if body == '':
             return '<%s/>' % name
@@ -171,6 +175,8 @@ def mp_item(item):
         return {'t': 'int', 'v': item[1]}
     if t == 'f':
         return {'t': 'f64', 'v': int(item[1], 16)}
+    if t == 'f32':
+        return {'t': 'f32', 'v': int(item[1], 16)}
     if t == 's':
         return {'t': 'str', 'v': item[1].encode('utf-8')}
     if t == 'a':
